@@ -744,6 +744,22 @@ def _execute_power(plan, ctx, base):
     with seams.allocator('zero'):
         xs = [SP.rand_elem(P, g, positive=True) for _ in range(plan['nst'])]
         bs = [SP.rand_elem(base, g, positive=True) for _ in range(2)]
+        # elements whose parts are views into ONE array (space.element(arr),
+        # like results of NumPy calls), and re-ordered / repeated selections
+        # of their parts: asarray() has to follow the parts, not the array
+        try:
+            full = np.stack([np.asarray(p_.asarray()) for p_ in xs[0].parts])
+            one = P.element(np.array(full, copy=True))
+            derived = [one]
+            if len(one) > 1:
+                derived += [one[::-1], one[[len(one) - 1] + list(
+                    range(len(one) - 1))]]
+            for q, dx in enumerate(derived):
+                if hasattr(dx, 'parts') and dx.space == P:
+                    xs[(q + 1) % len(xs)] = dx
+                    ctx.fired('power-element-from-one-array')
+        except Exception:
+            pass
     for op in plan['ops']:
         if op['t'] == 'np_asarray':
             x = xs[op['s']]
